@@ -63,7 +63,12 @@ def r_unreserve_owned(rep, prog):
                 rb, rt = rs[0]
                 dl = rt["dest"]["l"]
                 states = ps.states_at(bi)
-                good = bool(states) and all(env.get(("c", rb)) == 1 and env.get(("pv", dl, ("as1", ".0", ".0"))) == 1 for _, env in states)
+                swaps = [sb for sb, _ in lib.find_calls(b, "llfree::local::Locals::swap")]
+                # ... and the reservation has not been handed to a slot yet on this path
+                good = bool(states) and all(env.get(("c", rb)) == 1 and env.get(("pv", dl, ("as1", ".0", ".0"))) == 1
+                                            and all(env.get(("c", sb)) is None for sb in swaps) for _, env in states)
+                reach_swap = any(bi in lib.cfg.reachable_from(b, sb) for sb in swaps)
+                good = good and not reach_swap
                 same = T.canon(tm.operand(rt["args"][1])) == ("p", "i")
                 if good and same:
                     src = "tree reserved by this call (reserved == true)"
